@@ -6,16 +6,22 @@ set -u
 mkdir -p "$B"
 exec 9>"$B/.lock"
 flock 9
-treehash() {
-  (cd "$REPO" && find src cmd lib go.mod go.sum -type f \( -name '*.go' -o -name '*.c' -o -name '*.h' -o -name '*.cpp' -o -name '*.ddp' -o -name 'go.mod' -o -name 'go.sum' \) -print0 | sort -z | xargs -0 sha1sum
-   cd "$VERIF" && find mc hooks c scripts -type f ! -name go.sum -print0 | sort -z | xargs -0 sha1sum) | sha1sum | cut -d' ' -f1
+repohash() {
+  (cd "$REPO" && find src cmd lib go.mod go.sum -type f \( -name '*.go' -o -name '*.c' -o -name '*.h' -o -name '*.cpp' -o -name '*.ddp' -o -name 'go.mod' -o -name 'go.sum' \) -print0 | sort -z | xargs -0 sha1sum; cat "$VERIF/scripts/build.sh") | sha1sum | cut -d' ' -f1
 }
-H=$(treehash)
-if [ -f "$B/.hash" ] && [ "$(cat "$B/.hash")" = "$H" ] && [ -x "$B/ddpmc" ] && [ -x "$B/ddp/bin/kddp" ]; then exit 0; fi
-rm -f "$B/.hash"
+verifhash() {
+  (echo "$HR"; cd "$VERIF" && find mc hooks c scripts -type f ! -name go.sum -print0 | sort -z | xargs -0 sha1sum) | sha1sum | cut -d' ' -f1
+}
+HR=$(repohash)
+HV=$(verifhash)
 log() { echo "[build] $*" >&2; }
 fail() { echo "[build] FAILED: $*" >&2; exit 2; }
 D=$B/ddp
+if [ -f "$B/.hash_repo" ] && [ "$(cat "$B/.hash_repo")" = "$HR" ] && [ -x "$B/ddp/bin/kddp" ]; then REPO_OK=1; else REPO_OK=0; fi
+if [ $REPO_OK = 1 ] && [ -f "$B/.hash_verif" ] && [ "$(cat "$B/.hash_verif")" = "$HV" ] && [ -x "$B/ddpmc" ]; then exit 0; fi
+rm -f "$B/.hash_verif"
+if [ $REPO_OK = 0 ]; then
+rm -f "$B/.hash_repo"
 rm -rf "$D" "$B/obj"; mkdir -p "$D/bin" "$D/lib" "$B/obj"
 
 # ---- locale (de_DE.UTF-8 = C.utf8 with decimal comma) -------------
@@ -74,13 +80,18 @@ log "list defs"
 "$D/bin/kddp" dump-list-defs -o "$D/lib/ddp_list_types_defs" --llvm-ir --object >&2 || fail "dump-list-defs"
 cp "$D/lib/ddp_list_types_defs.o" "$D/lib/ddp_list_types_defs.ll" "$D/libasan/"
 
+echo "$HR" > "$B/.hash_repo"
+fi # REPO_OK
+
 # ---- C harnesses ---------------------------------------------------
 if [ -f "$VERIF/c/build.sh" ]; then log "c harnesses"; bash "$VERIF/c/build.sh" >&2 || fail "c harness"; fi
 
 # ---- ddpmc (links /repo's packages, overlay adds hooks/) -----------
 log "ddpmc"
 python3 "$VERIF/scripts/mkoverlay.py" > "$B/overlay.json" || fail overlay
-(cd "$VERIF/mc" && cp "$REPO/go.sum" . && go build -tags "byollvm verif" -overlay "$B/overlay.json" -o "$B/ddpmc" ./cmd/ddpmc) || fail "go build ddpmc"
-echo "$H" > "$B/.hash"
+# the module file is generated so that REPO may point to a scratch copy (self-test of mutants)
+sed "s#=> /repo#=> $REPO#" "$VERIF/mc/go.mod" > "$B/mc.go.mod" && cp "$REPO/go.sum" "$B/mc.go.sum" || fail modfile
+(cd "$VERIF/mc" && go build -modfile="$B/mc.go.mod" -tags "byollvm verif" -overlay "$B/overlay.json" -o "$B/ddpmc" ./cmd/ddpmc) || fail "go build ddpmc"
+echo "$HV" > "$B/.hash_verif"
 log "done"
 exit 0
